@@ -190,7 +190,8 @@ func constOfKind(r *rand.Rand, kind string) *lexer.Token {
 			`"100"^^type:int64`, `"3"^^type:int64`, `"2"^^type:int64`, `"1"^^type:int64`, `"99"^^type:int64`, `"9223372036854775807"^^type:int64`}))
 	case "float", "floatD", "floatN":
 		return tkn(lexer.ItemLiteral, pickS(r, []string{`"1.5"^^type:float64`, `"2"^^type:float64`, `"-2.5"^^type:float64`, `"2e-07"^^type:float64`,
-			`"1e+30"^^type:float64`, `"2e+29"^^type:float64`, `"0.5"^^type:float64`, `"10.125"^^type:float64`, `"2.5"^^type:float64`, `"1e-07"^^type:float64`}))
+			`"1e+30"^^type:float64`, `"2e+29"^^type:float64`, `"0.5"^^type:float64`, `"10.125"^^type:float64`, `"2.5"^^type:float64`, `"1e-07"^^type:float64`,
+			`"2.7654321"^^type:float64`, `"10.25"^^type:float64`, `"3"^^type:float64`, `"123.4567891"^^type:float64`, `"10.5"^^type:float64`, `"2.1234567"^^type:float64`}))
 	case "text", "textD", "str", "strD", "digitsT":
 		return tkn(lexer.ItemLiteral, pickS(r, []string{`"ab"^^type:text`, `"abc"^^type:text`, `"ab c"^^type:text`, `"a"^^type:text`, `"b"^^type:text`,
 			`"u"^^type:text`, `""^^type:text`, `"zeta"^^type:text`, `"k1"^^type:text`, `"t"^^type:text`, `"x"^^type:text`, `"5"^^type:text`}))
@@ -662,6 +663,7 @@ func replay13() []replayResult {
 	add("C13-float-width", evalOne(lt("?o", `"2e+29"^^type:float64`), table.Row{"?o": litCell(literal.Float64, 1e30)}), "true")
 	add("C13-float-precision", evalOne([]*lexer.Token{tkn(lexer.ItemBinding, "?o"), tkn(lexer.ItemEQ, "="), tkn(lexer.ItemLiteral, `"2e-07"^^type:float64`)},
 		table.Row{"?o": litCell(literal.Float64, 1e-7)}), "true")
+	add("C13-float-negative", evalOne(lt("?o", `"-2.5"^^type:float64`), table.Row{"?o": litCell(literal.Float64, -1.5)}), "true")
 	add("C13-text-prefix", evalOne(lt("?o", `"ab"^^type:text`), table.Row{"?o": litCell(literal.Text, "ab c")}), "true")
 	add("C13-id-prefix", evalOne(lt("?o", `"ab"^^type:text`), table.Row{"?o": &table.Cell{S: table.CellString("ab c")}}), "true")
 	// three nested parentheses: a well-typed expression the builder rejects
